@@ -190,6 +190,50 @@ PLANS['C14'] = {
     'level_text': 'C14 quantifies over histories x configurations: the specification makes every library call a bag of allocator events routed through the hook triple that InitHooks selects, TLC checks the routing invariants in all reachable states, and the real library is driven through every transition while each malloc/free/realloc it issues is attributed either to the installed user functions or to the C library entry points.',
     'level_note': 'call classes are representative bundles of API calls (every allocating code path of cJSON.c and cJSON_Utils.c is in one of them); TLC and the driver are trusted',
 }
+# ------------------------------------------------------------------------------------------------ RFC utilities
+def ptr_run(name, maxlen):
+    return {'name': name, 'module': 'MC_Pointer', 'mode': 'utils', 'invariants': ['InvCase'], 'constants': {'MaxLen': maxlen, 'Emit': 'TRUE'}, 'timeout': 3000}
+def patch_run(name, mode, tier, record=False):
+    r = {'name': name, 'module': 'MC_Patch', 'mode': 'utils', 'constants': {'Mode': '"%s"' % mode, 'Tier': '"%s"' % tier, 'Emit': 'TRUE'}, 'timeout': 3000}
+    if record:
+        r['drvargs'] = '--record {outdir}/%s.records.ndjson' % name
+        r['post'] = 'utilcheck'
+    return r
+UTIL_ASSUME = ['objects have distinct keys, as the properties state', 'number values are catalogue ids (two distinct numbers suffice for these properties)']
+UTIL_NOTE = 'bounded document/patch universes; the RFC evaluators of Pointer.tla / Patch.tla are the oracle; TLC and the driver are trusted'
+PLANS['C15'] = {
+    'quick': [ptr_run('ptr5', 5)], 'thorough': [ptr_run('ptr6', 6)],
+    'rule': 'documents with keys "", a, A, /, ~, 0, 1, 01, a/b, m~n, ~1, -, nested arrays (one of 12 elements) x ALL pointer strings up to the length bound over {/ ~ 0 1 2 a A -} plus long-index and escaped pointers; all (document, node) pairs for construction; non-trivial = every case; distinct by construction',
+    'assumptions': UTIL_ASSUME,
+    'technique': 'TLC checks the transcription of get_item_from_pointer/decode_array_index/compare_pointers against declarative RFC 6901 resolution for every (document, pointer string), and pointer construction against the canonical pointer; every case replayed with node identity compared',
+    'level_text': 'C15 is a function of (document, string): TLC enumerates every pointer string over the steering alphabet up to a length bound for a set of documents chosen for their keys, proves transcription = RFC 6901, and the real lookup must return exactly the designated node (identity), the real construction exactly the canonical escaped pointer.',
+    'level_note': UTIL_NOTE,
+}
+PLANS['C16'] = {
+    'quick': [patch_run('applyQ', 'apply', 'thorough')], 'thorough': [patch_run('applyT', 'apply', 'deep'), {**patch_run('applyQasan', 'apply', 'thorough'), 'flavour': 'asan'}],
+    'rule': 'documents x patches: every operation (6 ops x every valid pointer into the document and one token beyond incl. "-", indices, leading zero, escaped keys, root x values x from-pointers), the empty patch, two-operation patches (thorough), and values that are not patches (wrong types, missing op/path/value/from); non-trivial = every case; distinct by construction',
+    'assumptions': UTIL_ASSUME + ['operations with a syntactically invalid pointer and removal of the whole document are left open, as the property states'],
+    'technique': 'TLC evaluates the declarative RFC 6902 evaluator (Patch.tla) on every (document, patch) of the universe, giving must-succeed-with-result / must-fail / open; real ApplyPatchesCaseSensitive compared (status, document as key/value sets), patched document edited and released under the census allocator',
+    'level_text': 'TLC computes the RFC 6902 verdict and result for every (document, patch) in a generated universe that contains every operation at every location of the document and just beyond it, plus malformed patch values; the real function must agree on success and on the resulting value, must fail where the RFC fails, and for every value whatsoever must leave a well-formed, editable, fully releasable document.',
+    'level_note': UTIL_NOTE,
+}
+PLANS['C17'] = {
+    'quick': [patch_run('pairsQ', 'pairs', 'thorough', record=True)], 'thorough': [patch_run('pairsT', 'pairs', 'deep', record=True)],
+    'rule': 'all ordered pairs (from, to) over a universe of scalars, arrays and objects (keys a, A, a/b, m~n; unsorted 3-member objects); every generated patch is recorded and judged by TLC with the RFC 6902 evaluator; non-trivial = every pair; distinct by construction',
+    'assumptions': UTIL_ASSUME,
+    'technique': 'TLC enumerates all (from, to) pairs; the real GeneratePatchesCaseSensitive output is recorded and validated by TLC against the declarative RFC 6902 evaluator (ApplyRFC(from, patch) = to, empty iff equal); also applied with the library; inputs re-checked and edited afterwards',
+    'level_text': 'The form of a generated patch is free, so the property is checked in the reverse direction: for all pairs of a finite universe the patch the real library generates is recorded and TLC evaluates the declarative RFC 6902 semantics on it; input documents are compared in value, walked and edited afterwards.',
+    'level_note': UTIL_NOTE,
+}
+PLANS['C18'] = {
+    'quick': [patch_run('mergeQ', 'merge', 'thorough'), patch_run('pairsQ', 'pairs', 'thorough', record=True)],
+    'thorough': [patch_run('mergeT', 'merge', 'deep'), patch_run('pairsT', 'pairs', 'deep', record=True)],
+    'rule': 'all (target, patch) pairs over scalars, arrays and objects with null members and case-variant keys (application, result fully determined) and all (from, to) pairs (generation, recorded merge patches judged by TLC with the RFC 7396 evaluator); non-trivial = every pair; distinct by construction',
+    'assumptions': UTIL_ASSUME,
+    'technique': 'TLC evaluates declarative RFC 7396 MergeRFC for all (target, patch) pairs, real MergePatchCaseSensitive compared; generated merge patches recorded and validated by TLC (MergeRFC(from, p) = to)',
+    'level_text': 'Application is a total function of (target, patch): TLC computes the RFC 7396 result for all pairs and the real result must be equal as a value; generation is checked in the reverse direction by letting TLC apply every recorded merge patch with the declarative evaluator.',
+    'level_note': UTIL_NOTE,
+}
 NOT_CLAIMED = {}
 
 
@@ -241,6 +285,35 @@ def textcheck(prop, path, outdir, V):
             out.append('VIOLATION property=C05 replay=%s :: printed text is not one RFC 8259 text denoting the tree (judged by the TLA+ grammar): %s' % (rp, lines[i - 1][:200]))
     if n != len(lines):
         out.append('check: MACHINERY FAILURE textcheck judged %d of %d texts: %s' % (n, len(lines), r.stdout[-300:]))
+    return '\n'.join(out) + ('\n' if out else ''), n
+
+
+def utilcheck(prop, path, outdir, V):
+    """patches / merge patches the real library generated: judged by the RFC evaluators of Patch.tla (MC_UtilCheck.tla)"""
+    import subprocess, re, shutil, json
+    try:
+        lines = [l for l in open(path).read().splitlines() if l.strip()]
+    except OSError:
+        return '', 0
+    if not lines:
+        return '', 0
+    cfg = os.path.join(outdir, 'utilcheck.cfg')
+    open(cfg, 'w').write('INIT Init\nNEXT Next\nINVARIANTS Judge\nCHECK_DEADLOCK FALSE\n')
+    md = os.path.join(outdir, 'md-utilcheck')
+    env = dict(os.environ); env['RECORDS'] = path
+    r = subprocess.run('cd %s/spec && timeout 2400 tlc -workers 1 -metadir %s -config %s MC_UtilCheck.tla 2>&1' % (V, md, cfg), shell=True, env=env, capture_output=True, text=True)
+    shutil.rmtree(md, ignore_errors=True)
+    out, n = [], 0
+    for m in re.finditer(r'<<"V", (\d+), (TRUE|FALSE)>>', r.stdout):
+        n += 1
+        if m.group(2) == 'FALSE':
+            i = int(m.group(1)); rec = json.loads(lines[i - 1]); owner = 'C17' if rec['k'] == 'patch' else 'C18'
+            if prop == owner and len(out) < 10:
+                rp = os.path.join(outdir, '%s-record-%d.case' % (owner, i))
+                open(rp, 'w').write(lines[i - 1] + '\n')
+                out.append('VIOLATION property=%s replay=%s :: the generated %s does not transform from into to under the declarative RFC evaluator: %s' % (owner, rp, 'patch' if owner == 'C17' else 'merge patch', lines[i - 1][:240]))
+    if n != len(lines):
+        out.append('check: MACHINERY FAILURE utilcheck judged %d of %d records: %s' % (n, len(lines), r.stdout[-300:]))
     return '\n'.join(out) + ('\n' if out else ''), n
 
 
